@@ -245,7 +245,9 @@ impl<G: SerializeElement, const N: usize> SerializeElement for [G; N] {
             {
                 let mut elems = ArrayVec::new();
                 while let Some(elem) = seq.next_element::<DeWrapper<G>>()? {
-                    elems.push(elem.0);
+                    elems
+                        .try_push(elem.0)
+                        .map_err(|_| de::Error::custom("wrong number of elements for array"))?;
                 }
                 elems
                     .into_inner()
